@@ -346,6 +346,11 @@ func decodeTagAndMembershipList(msg []byte) (msgType, tag, []uint16, error) {
 		return 0, "", nil, fmt.Errorf("message too small (%d bytes), should be 32 bytes", len(msg))
 	}
 
+	// A type byte and a 32 byte tag, followed by 2 bytes per member
+	if len(msg) < 33 || (len(msg)-33)%2 != 0 {
+		return 0, "", nil, fmt.Errorf("message of %d bytes is not a header followed by a list of 16 bit identifiers", len(msg))
+	}
+
 	msgType := msgType(msg[0])
 	if msgType < msgTypeMembership || msgType > msgTypeResponse {
 		return 0, "", nil, fmt.Errorf("invalid message type: %d", msgType)
